@@ -7,8 +7,9 @@ ID = "C12"
 LEVEL = "exploration"
 RULE = (
     "stores of 1..10 traces (1..9 spans each, random parent arrays) under "
-    "1..5 workflow names (names and trace ids chosen so that lexicographic "
-    "and insertion orders disagree), spans ingested in a drawn interleaved "
+    "1..5 workflow names (drawn from a pool with names equal up to letter "
+    "case, prefixes of each other, non-ASCII; names and trace ids chosen so "
+    "that lexicographic and insertion orders disagree), spans ingested in a drawn interleaved "
     "order; streamed with every batch size (yield_per window) in "
     "{1,2,3,7,1000}, without filter, with filter_job_names, with a "
     "job_name_to_job_ids_map (unique-graph style), or both. The stream is "
@@ -143,6 +144,8 @@ def classify(case):
     names = {t[0] for t in case["traces"]}
     big = max(len(t[2]) for t in case["traces"])
     classes = [f"names={len(names)}"]
+    if len({n.lower() for n in names}) < len(names):
+        classes.append("names_equal_ignoring_case")
     if case.get("filter_names"):
         classes.append("filter_names")
     if case.get("id_map"):
@@ -154,7 +157,8 @@ def classify(case):
     return len(names) >= 2 and big >= 2, classes
 
 
-NAMES = ["wf", "wf10", "wf2", "Z", "a b"]
+NAMES = ["wf", "wf10", "wf2", "Z", "a b", "WF", "Wf", "z", "wf_1", "wf-1",
+         "\u00e9", "E", "wf ", "a"]
 
 
 def case_strategy():
@@ -164,9 +168,13 @@ def case_strategy():
     def build(draw):
         nn = draw(st.integers(1, 5))
         nt = draw(st.integers(1, 10))
+        # names that differ only in case, are prefixes of each other, or
+        # collate differently under other collations
+        names = draw(st.lists(st.sampled_from(NAMES), min_size=nn,
+                              max_size=nn, unique=True))
         traces = []
         for ti in range(nt):
-            name = NAMES[draw(st.integers(0, nn - 1))]
+            name = names[draw(st.integers(0, nn - 1))]
             n = draw(st.integers(1, 9))
             parents = [None] + [draw(st.integers(0, k - 1)) for k in range(1, n)]
             types = [draw(st.sampled_from("ABC")) for _ in range(n)]
